@@ -42,6 +42,8 @@ type zzRecWorld struct {
 	tag     byte
 	nested  bool // payments go to the BIP0049Plus scope instead of BIP0084
 	failOnce bool // inject one backend failure
+	interrupt   bool // one forced shutdown (wallet locked / stopped) in the middle of a batch
+	interrupted bool
 	failed  bool // a backend failure was injected into this recovery
 }
 
@@ -201,6 +203,23 @@ func (w *zzRecWorld) recover(label string) {
 		w.chain.filterErr = nil
 		verifrt.Reach("retried-after-backend-failure")
 	}
+	if first := w.w.Manager.SyncedTo().Height + 1; w.interrupt && !w.interrupted && w.chain.tip().height > first {
+		// the wallet is locked or stopped while the recovery has fetched the
+		// first block's header but not yet filtered it (blocks are filtered
+		// per batch): the recovery ends with an error, nothing it has not
+		// scanned may count as synced, and the next run resumes from there
+		w.interrupted = true
+		w.chain.onBlockHash = func(h int64) {
+			if h == int64(first) {
+				w.w.endRecovery()
+			}
+		}
+		err := w.w.recovery(w.chain, birthday)
+		w.chain.onBlockHash = nil
+		verifrt.Assert(err != nil, label+"-forced-shutdown-reported")
+		verifrt.Assert(w.w.Manager.SyncedTo().Height == first-1, label+"-nothing-unscanned-counts-as-synced")
+		verifrt.Reach("interrupted-and-resumed")
+	}
 	err := w.w.recovery(w.chain, birthday)
 	verifrt.Assert(err == nil, label+"-recovery-succeeds")
 }
@@ -254,12 +273,18 @@ func (w *zzRecWorld) check(label string) {
 // so that the final run resumes (Resurrect) from what was persisted.
 func zzC16Recovery(W uint32, nBlocks int) { zzC16RecoveryOpt(W, nBlocks, false, false) }
 
+func zzC16RecoveryOptI(W uint32, nBlocks int) { zzC16RecoveryOpt3(W, nBlocks, false, false, true) }
+
 func zzC16RecoveryOpt(W uint32, nBlocks int, nested, failOnce bool) {
+	zzC16RecoveryOpt3(W, nBlocks, nested, failOnce, false)
+}
+
+func zzC16RecoveryOpt3(W uint32, nBlocks int, nested, failOnce, interrupt bool) {
 	ww := zzNewWalletWorld(200, 1)
 	ww.w.recoveryWindow = W
 	root, err := hdkeychain.NewMaster(zzWSeed, ww.params)
 	zzW(err)
-	w := &zzRecWorld{zzWalletWorld: ww, root: root, W: W, highest: [2]int64{-1, -1}, nested: nested, failOnce: failOnce}
+	w := &zzRecWorld{zzWalletWorld: ww, root: root, W: W, highest: [2]int64{-1, -1}, nested: nested, failOnce: failOnce, interrupt: interrupt}
 	zzW(walletdb.View(w.db, func(tx walletdb.ReadTx) error {
 		return w.w.Manager.Unlock(tx.ReadBucket(waddrmgrNamespaceKey), zzWPriv)
 	}))
@@ -284,6 +309,11 @@ func ZzC16RecoveryNestedW2B2() { zzC16RecoveryOpt(2, 2, true, false) }
 
 // the backend fails one filter request; the recovery is retried in-process
 func ZzC16RecoveryFailW2B2() { zzC16RecoveryOpt(2, 2, false, true) }
+
+// the recovery is interrupted (forced shutdown) in the middle of a batch and resumed
+func ZzC16RecoveryInterruptW2B2() {
+	zzC16RecoveryOptI(2, 2)
+}
 func ZzC16RecoveryW2B3() { zzC16Recovery(2, 3) }
 func ZzC16RecoveryW3B3() { zzC16Recovery(3, 3) }
 
